@@ -36,8 +36,9 @@ func Harness_C09_excl_same_key() {
 	verifAssert(id0 >= 0 && id0 < execs && id1 >= 0 && id1 < execs, "answered_by_a_real_execution")
 	verifAssert(execStart[id0] > call0 && execStart[id1] > call1, "answered_by_an_execution_begun_after_the_call")
 	if id0 == id1 {
+		// (two calls issued one after the other by one goroutine never coalesce: the first holds the key's
+		// mutex until its runner has installed the successor item; kept as an assertion, not as a witness)
 		verifAssert(t0 == t1, "coalesced_callers_get_the_identical_result")
-		verifReach("coalesced")
 	} else {
 		verifReach("separate")
 	}
@@ -110,6 +111,58 @@ func Harness_C10_excl_start_then_call() {
 	}()
 	verifFinally(func() {
 		verifAssert(execs == 1, "one_execution_for_the_coalesced_batch")
+		verifAssert(len(e.work) == 0, "no_per_key_state_remains")
+		verifReach("quiescent")
+	})
+}
+
+// C09/C10 excl_late_caller: A is executing (parked inside its work function), B is queued behind it, and
+// a third call C arrives from another goroutine at an arbitrary moment while A finishes and B takes
+// over. No two work functions of the key overlap, every call is answered, no state remains.
+func Harness_C09_excl_late_caller() {
+	var e Exclusive
+	release := make(chan struct{})
+	running, overlap, execs := 0, false, 0
+	work := func(tok int, park bool) func() (interface{}, error) {
+		return func() (interface{}, error) {
+			running++
+			if running > 1 {
+				overlap = true
+			}
+			execs++
+			if park {
+				<-release
+			} else {
+				verifYield() // the work takes time
+			}
+			running--
+			return vtok(tok), nil
+		}
+	}
+	verifAtomic(func() { e.Start("k", work(1, true)) })
+	go func() {
+		verifYield()
+		var outB <-chan *ExclusiveOutcome
+		verifAtomic(func() {
+			// state of interest: A's execution is under way (assumption), B queues behind it
+			e.mutex.Lock()
+			it := e.work["k"]
+			started := it != nil && it.running && it.count == 0
+			e.mutex.Unlock()
+			verifAssume(started)
+			outB = e.CallAsync("k", work(2, false))
+		})
+		go func() {
+			rC := <-e.CallAsync("k", work(3, false))
+			verifAssert(rC != nil && rC.Error == nil && (rC.Result == vtok(2) || rC.Result == vtok(3)), "late_call_is_answered_by_an_execution_of_a_queued_function")
+		}()
+		close(release)
+		rB := <-outB
+		verifAssert(rB != nil && rB.Error == nil && (rB.Result == vtok(2) || rB.Result == vtok(3)), "queued_call_is_answered")
+	}()
+	verifFinally(func() {
+		verifAssert(!overlap, "work_functions_for_one_key_never_overlap")
+		verifAssert(execs == 2 || execs == 3, "one_execution_per_batch")
 		verifAssert(len(e.work) == 0, "no_per_key_state_remains")
 		verifReach("quiescent")
 	})
